@@ -66,6 +66,23 @@ ASSUMPTIONS = [
 MUTABLE = (Angle, Epoch, list, tuple, Interpolation, CurveFitting)
 
 
+def _kf_apsis_window(planet):
+    sites = ("%s.%s.perihelion_aphelion" % (planet, planet), "%s.%s.passage_nodes" % (planet, planet))
+
+    def pred(clause, case, v):
+        return (clause == "call" and v.site in sites and v.kind == "exception:ValueError"
+                and "Invalid interval" in v.data.get("exc", "")
+                and (v.data.get("where") or "").startswith("Interpolation.py"))
+    return pred
+
+
+# same root causes as KF-C13-apsis-window-jupiter / -saturn, seen here as totality failures
+KNOWN_SIGNATURES = {
+    "KF-C20-apsis-window-jupiter": _kf_apsis_window("Jupiter"),
+    "KF-C20-apsis-window-saturn": _kf_apsis_window("Saturn"),
+}
+
+
 def self_test():
     miss = api.uncovered()
     if miss:
@@ -684,17 +701,17 @@ def history_cases():
 # ------------------------------------------------------------------- tasks
 
 def tasks(tier, seed):
-    mult = 1 if tier == "quick" else 25
+    mult = 1 if tier == "quick" else 12
     keys = sorted(API)
     out = []
     nsh = 14
     for sh in range(nsh):
-        out.append(Task("t_call", shard=sh, nsh=nsh, per=25 * mult))
+        out.append(Task("t_call", shard=sh, nsh=nsh, per=90 * mult))
     for sh in range(4):
         out.append(Task("t_illtyped", shard=sh, nsh=4))
     out.append(Task("t_outofrange", n=20 * mult))
-    for sh in range(12 if tier == "quick" else 16):
-        out.append(Task("t_history", shard=sh, n=60 * (1 if tier == "quick" else 12)))
+    for sh in range(16):
+        out.append(Task("t_history", shard=sh, n=150 * (1 if tier == "quick" else 12)))
     return out
 
 
